@@ -233,6 +233,14 @@ def cmp(op, a, b):
         op, a, b = "Lt", b, a
     elif op == "GtE":
         op, a, b = "LtE", b, a
+    if a[0] == "const" and b[0] == "const" and op in ("Eq", "NotEq", "Is", "IsNot") and (a[1] is None or b[1] is None or type(a[1]) is type(b[1])):
+        same = a[1] == b[1] and (a[1] is None) == (b[1] is None)
+        return TRUE if same == (op in ("Eq", "Is")) else FALSE
+    if op in ("Eq", "NotEq", "Is", "IsNot"):
+        # comparing a case distinction with a constant: compare case by case
+        for x, y in ((a, b), (b, a)):
+            if x[0] == "ite" and y[0] == "const" and (x[2][0] == "const" or x[3][0] == "const"):
+                return mk_ite(x[1], cmp(op, x[2], y), cmp(op, x[3], y))
     if is_num(a) and is_num(b) and op in ("Eq", "NotEq", "Lt", "LtE"):
         va, vb = num_value(a), num_value(b)
         return TRUE if {"Eq": va == vb, "NotEq": va != vb, "Lt": va < vb, "LtE": va <= vb}[op] else FALSE
@@ -284,6 +292,17 @@ def literals(c, pol=True):
             return out
         if c[1] in _NEGATED:
             return [(("op", _NEGATED[c[1]], c[2]), not pol)]
+    if c[0] == "ite":
+        k, a, b = c[1], c[2], c[3]
+        # (k ? True : b) is `k or b`; (k ? False : b) is `not k and b`; (k ? a : True) is `not k or a`; (k ? a : False) is `k and a`
+        if a == TRUE and not pol:
+            return literals(k, False) + literals(b, False)
+        if a == FALSE and pol:
+            return literals(k, False) + literals(b, True)
+        if b == TRUE and not pol:
+            return literals(k, True) + literals(a, False)
+        if b == FALSE and pol:
+            return literals(k, True) + literals(a, True)
     if c == TRUE and pol or c == FALSE and not pol:
         return []
     return [(c, pol)]
@@ -687,8 +706,10 @@ class Evaluator:
             if a is not None and s.orelse:
                 a = self._block(s.orelse, a, pc, res)
             out = a
+            single_assign = len(s.body) == 1 and isinstance(s.body[0], ast.Assign) and all(isinstance(t_, ast.Name) for t_ in s.body[0].targets)
             for i, h in enumerate(s.handlers):
-                henv = self._havoc(env, s.body, "T%d" % s.lineno)
+                # `try: x = <expr>`: if the expression raised, the assignment did not happen and x keeps its old value
+                henv = dict(env) if single_assign else self._havoc(env, s.body, "T%d" % s.lineno)
                 if h.name:
                     henv[h.name] = ("sym", h.name)
                 ht = self._e(h.type, env, pc, res) if h.type is not None else NONE
@@ -792,7 +813,11 @@ class Evaluator:
             return ("const", repr(v))
         if isinstance(n, ast.Name):
             if n.id in env:
-                return env[n.id]
+                v = env[n.id]
+                # a case distinction already decided by the path condition
+                while v[0] == "ite" and ((v[1], True) in pc or (v[1], False) in pc):
+                    v = v[2] if (v[1], True) in pc else v[3]
+                return v
             return ("sym", n.id)
         if isinstance(n, ast.Attribute):
             d = dotted(n)
@@ -1176,6 +1201,18 @@ class Evaluator:
                 return args[0]
         if kws or args:
             args, kws = self._canonical_args(f, args, kws)
+        # numpy spellings of the same boolean array operation
+        if fname in ("np.logical_not", "numpy.logical_not") and len(args) == 1 and not kws:
+            return ("op", "invert", (args[0],))
+        if f[0] == "attr" and f[2] in ("any", "all") and not args and f[1][0] in ("call", "sub", "op", "item", "attr") and show(f[1]) not in ("np", "numpy") \
+                and set(k for k, v in kws) <= {"axis"}:
+            f = ("attr", ("sym", "np"), f[2])
+            args = [self._recv_of(n, env, pc)]          # x.any(axis=k) is np.any(x, axis=k)
+            fname = show(f)
+        if fname in ("np.all", "numpy.all") and len(args) == 1 and args[0][0] == "op" and args[0][1] == "invert" and set(k for k, v in kws) <= {"axis"}:
+            inner = ("call", ("attr", ("sym", "np"), "any"), (args[0][2][0],), tuple(kws))
+            res.events.append(Event("call", inner, n, pc))
+            return ("op", "invert", (inner,))
         if fname == "divmod" and not kws and len(args) == 2:
             return ("tuple", (self._binop(ast.FloorDiv(), args[0], args[1]), self._binop(ast.Mod(), args[0], args[1])))
         if fname == "range" and not kws and len(args) == 2 and args[0] == ZERO:
@@ -1265,6 +1302,9 @@ class Evaluator:
                 ev.extra = r
                 return r
         return t
+
+    def _recv_of(self, n, env, pc):
+        return self._e(n.func.value, env, pc, Result())
 
     def _callee(self, f):
         """(FunctionDef-bearing Func, is_bound_method) of a call target when it resolves to one project function."""
